@@ -52,8 +52,9 @@ func (h ErrorHandler) ServeHTTP(w http.ResponseWriter, r *http.Request) (int, er
 
 	if err != nil {
 		errMsg := fmt.Sprintf("[ERROR %d %s] %v", status, r.URL.Path, err)
-		if h.Debug {
-			// Write error to response instead of to log
+		if h.Debug && status != 0 {
+			// Write error to response instead of to log (a status of 0 means
+			// the response has already been written and must be left alone)
 			w.Header().Set("Content-Type", "text/plain; charset=utf-8")
 			w.WriteHeader(status)
 			fmt.Fprintln(w, errMsg)
